@@ -256,6 +256,17 @@ func storeInto(slot *Value, v Value) {
 func (ex *Exec) i64(v int64) *Term  { return ex.C.Const(BV(64), uint64(v)) }
 func (ex *Exec) u64(v uint64) *Term { return ex.C.Const(BV(64), v) }
 
+// constOf is constInt plus the terms that were concretised on this path.
+func (ex *Exec) constOf(t *Term) (int64, bool) {
+	if t.IsConst() {
+		return sext64(t.Val, t.Sort.W), true
+	}
+	if v, ok := ex.concrete[t.ID]; ok {
+		return v, true
+	}
+	return 0, false
+}
+
 // constInt returns the concrete value of a constant term.
 func constInt(t *Term) (int64, bool) {
 	if t.IsConst() {
